@@ -135,6 +135,9 @@ impl GameMods {
             Self::Intermode(ref mods) => {
                 if mods.contains(GameModIntermode::HardRock) {
                     Reflection::Vertical
+                } else if mods.contains(GameModIntermode::Mirror) {
+                    // Same as lazer's Mirror without a custom setting
+                    Reflection::Horizontal
                 } else {
                     Reflection::None
                 }
@@ -142,6 +145,8 @@ impl GameMods {
             Self::Legacy(mods) => {
                 if mods.contains(GameModsLegacy::HardRock) {
                     Reflection::Vertical
+                } else if mods.contains(GameModsLegacy::Mirror) {
+                    Reflection::Horizontal
                 } else {
                     Reflection::None
                 }
@@ -360,8 +365,9 @@ impl From<&GameModsIntermode> for GameMods {
         // If only legacy mods are set, use `GameModsLegacy` and thus avoid
         // allocating an owned `GameModsIntermode` instance.
         match mods.checked_bits() {
-            Some(bits) => bits.into(),
-            None => mods.to_owned().into(),
+            // `GameModsLegacy` drops bits it doesn't know, e.g. Mirror
+            Some(bits) if GameModsLegacy::from_bits(bits).bits() == bits => bits.into(),
+            _ => mods.to_owned().into(),
         }
     }
 }
